@@ -23,8 +23,12 @@ with ≈ as `Spec/Perm.lean` says.  Proved here:
 
   write_osu_perm           the osu writer: both written texts read back (C01's whole-text reader model) as the same
                            chart up to row order                   hyp: those of C01's `read_writeText`
-  write_sm_perm_partial    the StepMania writer: same multiset of object slots and of `#BPMS` pairs for any order of
-                           the tempo rows and of the notes          hyp: C10's domain, as C03's `written_beats_exact`
+  write_sm_perm            the StepMania writer: same measures cell by cell, same header, same multiset of `#BPMS` pairs
+                           (`fillMeasure_perm`: a measure's grid is a function of the SET of its cells)
+                                                                   hyp: C10's domain as C03's `written_beats_exact`, `MeasureOk`
+  write_bms_perm           the BMS writer: the by-the-book objects of the written cells on the note channels are the same
+                           multiset, the tempo objects sort to the same tempo list (lines may differ: `find_lcm`)
+                                                                   hyp: C05's domain, `BmsOk`
   write_qua_perm           the Quaver writer: both written documents denote (by the book) the same chart up to
                            row order                               hyp: those of C06's `qua_write_denotes`
 
@@ -47,6 +51,7 @@ import Reamber.Props.C18
 import Reamber.Props.C06
 import Reamber.Props.C01
 import Reamber.Lemmas.PermInvSM
+import Reamber.Lemmas.PermInvBMS
 
 namespace Reamber.PermInv
 
@@ -678,7 +683,208 @@ theorem write_sm_perm_partial (t0 : Rat) (cs : List BcSnap)
     rw [e h c rest w (B _ hb _ htb) hw, e h' c' rest' w' (B _ hb' _ htb') hw']
     exact hbp.map _
 
+/-- **SMMap.write (the rows of the chart) does not depend on the row order** of the tempo list and of the note lists:
+hypotheses of `write_sm_perm_partial`, plus what the property's quantifier grants per measure (`MeasureOk`: the lcm of the
+denominators fits the 384 cap, objects inside the grid, no two objects in one cell — then `cells_no_collision` makes the
+grid a function of the SET of cells). -/
+theorem write_sm_rows_perm (t0 : Rat) (cs : List BcSnap)
+    (hwf : wfChanges cs = true) (hs : sortedSnaps cs = true) (h0 : firstAtZero cs = true)
+    (hgc : gridCompatible (grid defaultMaxDiv) cs = true) (hm : metronomeOk cs = true)
+    (hM : ∀ c ∈ cs, c.met = 4) (hd : DistinctOffsets (tmOf t0 cs)) (c c' : WChart)
+    (hct : c'.chartType = c.chartType)
+    (hb : (tmOf t0 cs).Perm (toTimingMap c.bpms)) (hbp : c.bpms.Perm c'.bpms) (hn : c.notes.Perm c'.notes)
+    (hts : ∀ t ∈ (writeOrder c.notes).map (·.1), OnGridAt (grid defaultMaxDiv) t0 cs t)
+    (htb : ∀ t ∈ c.bpms.map (·.1), OnGridAt (grid defaultMaxDiv) t0 cs t)
+    (hok : ∀ keys s, getKeys c.chartType = some keys → smSlots c = .ok s →
+      ∀ m : Int, MeasureOk keys (s.filter (fun x => x.measure = m))) :
+    writeChartRows c = writeChartRows c' := by
+  obtain ⟨⟨s, s', e, e', hp⟩, _⟩ :=
+    write_sm_perm_partial t0 cs hwf hs h0 hgc hm hM hd c c' hb hbp hn hts htb
+  rw [writeChartRows_of_slots c s e, writeChartRows_of_slots c' s' e', hct]
+  cases hk : getKeys c.chartType with
+  | none =>
+    have : s.isEmpty = s'.isEmpty := by
+      cases s <;> cases s' <;> simp_all
+    simp only [this]
+  | some keys =>
+    simp only []
+    rw [measuresSorted_perm hp]
+    exact writeLoop_perm keys hp (hok keys s hk e) _ _
+
+/-- non-vacuity of `MeasureOk`: three objects of one 4-key measure on quarter and eighth positions, distinct cells -/
+example : MeasureOk 4 [⟨0, 0, 4, 0, '1'⟩, ⟨0, 1, 4, 2, '1'⟩, ⟨0, 1, 8, 1, '2'⟩] :=
+  ⟨by decide, by decide, by decide, by decide⟩
+
+/-- **SMMapSet.write**: the set written for a chart and for the same chart with its tempo rows and its notes in other
+row orders: the same measures (the rows of the chart, cell by cell), the same header lines, and the same multiset of
+`#BPMS` pairs — hence the same by-the-book denotation (the denotation sorts `#BPMS` by beat, `Spec/SM.changesOf`). -/
+theorem write_sm_perm (t0 : Rat) (cs : List BcSnap)
+    (hwf : wfChanges cs = true) (hs : sortedSnaps cs = true) (h0 : firstAtZero cs = true)
+    (hgc : gridCompatible (grid defaultMaxDiv) cs = true) (hm : metronomeOk cs = true)
+    (hM : ∀ c ∈ cs, c.met = 4) (hd : DistinctOffsets (tmOf t0 cs)) (c : WChart) (bpms' : List (Rat × Rat)) (notes' : List Note)
+    (hb : (tmOf t0 cs).Perm (toTimingMap c.bpms)) (hbp : c.bpms.Perm bpms') (hn : c.notes.Perm notes')
+    (hts : ∀ t ∈ (writeOrder c.notes).map (·.1), OnGridAt (grid defaultMaxDiv) t0 cs t)
+    (htb : ∀ t ∈ c.bpms.map (·.1), OnGridAt (grid defaultMaxDiv) t0 cs t)
+    (hok : ∀ keys s, getKeys c.chartType = some keys → smSlots c = .ok s →
+      ∀ m : Int, MeasureOk keys (s.filter (fun x => x.measure = m)))
+    (h : WHeader) (w : Written) (hw : SM.write h [c] = .ok w) :
+    ∃ w', SM.write h [{ c with bpms := bpms', notes := notes' }] = .ok w' ∧ w'.charts = w.charts ∧ w'.bpms.Perm w.bpms ∧
+      w'.strs = w.strs ∧ w'.offsetSec = w.offsetSec ∧ w'.sampleStartSec = w.sampleStartSec ∧
+      w'.sampleLengthSec = w.sampleLengthSec ∧ w'.selectable = w.selectable := by
+  have hrows := write_sm_rows_perm t0 cs hwf hs h0 hgc hm hM hd c { c with bpms := bpms', notes := notes' } rfl hb hbp hn
+    hts htb hok
+  have hg : defaultGrid.toList = grid defaultMaxDiv := by simp [defaultGrid]
+  have B : ∀ (tm' : List BcOff), (tmOf t0 cs).Perm tm' → ∀ ts : List Rat,
+      (∀ t ∈ ts, OnGridAt (grid defaultMaxDiv) t0 cs t) → beats defaultGrid tm' ts = .ok (ts.map (beatAt t0 cs)) :=
+    fun tm' hp ts ht => beats_any_order defaultGrid (gridOK_grid (by decide)) t0 cs hwf hs h0 (by rw [hg]; exact hgc) hm 4 hM
+      tm' hp hd ts (by rw [hg]; exact ht)
+  have htb' : ∀ t ∈ bpms'.map (·.1), OnGridAt (grid defaultMaxDiv) t0 cs t :=
+    fun t ht => htb t ((hbp.map _).mem_iff.mpr ht)
+  have b1 := B (toTimingMap c.bpms) hb _ htb
+  have b2 : beats defaultGrid (toTimingMap bpms') (bpms'.map (·.1)) = .ok ((bpms'.map (·.1)).map (beatAt t0 cs)) :=
+    B (toTimingMap bpms') (hb.trans (hbp.map _)) _ htb'
+  unfold SM.write at hw ⊢
+  simp only [b1, b2, bind, Except.bind, mapE] at hw ⊢
+  rw [← hrows]
+  cases hr : writeChartRows c with
+  | error e => simp [hr] at hw
+  | ok rows =>
+    simp only [hr, Except.ok.injEq] at hw ⊢
+    subst hw
+    refine ⟨_, rfl, rfl, ?_, rfl, rfl, rfl, rfl, rfl⟩
+    simp only [List.map_map, zip_map_self]
+    exact (hbp.map _).symm
+
 end SMWriter
+
+/-! ## the BMS writer -/
+
+section BMSWriter
+open Reamber.Timing Reamber.BMS
+
+/-- the rows `BMSMap._write_notes` builds for hits, hold heads and hold tails -/
+def bmsNoteRows (cs : List BcSnap) (lay : Layout) (dflt : Bytes) (c : BMS.WChart) : List WRow :=
+  c.hits.map (fun h => ⟨posFn cs h.offset, (channelOf lay h.col).getD [], sampleId c.samples dflt h.sample⟩) ++
+  c.holds.map (fun h => ⟨posFn cs h.offset, (channelOf lay h.col).getD [], sampleId c.samples dflt h.sample⟩) ++
+  c.holds.map (fun h => ⟨posFn cs h.tail, (channelOf lay h.col).getD [], c.lnEnd⟩)
+
+/-- … and for the tempo rows: row `i` is the channel-08 object `base36(i+1)` at the position of its own offset -/
+def bmsTempoRows (cs : List BcSnap) (lay : Layout) (c : BMS.WChart) : List WRow :=
+  (zipIdxFrom 0 (c.bpms.map (fun b => posFn cs b.offset))).map (fun p => ⟨p.2, lay.exbpmCh, base36 (p.1 + 1)⟩)
+
+/-- what the property's quantifier grants: 4-beat metronome rows, columns the layout has, times at or after the first
+tempo point -/
+structure BmsOk (cs : List BcSnap) (lay : Layout) (c : BMS.WChart) : Prop where
+  met : ∀ b ∈ c.bpms, b.met = defMet
+  cols : (∀ h ∈ c.hits, (channelOf lay h.col).isSome = true) ∧ (∀ h ∈ c.holds, (channelOf lay h.col).isSome = true)
+  times : (∀ h ∈ c.hits, 0 ≤ h.offset) ∧ (∀ h ∈ c.holds, 0 ≤ h.offset ∧ 0 ≤ h.tail) ∧ (∀ b ∈ c.bpms, 0 ≤ b.offset)
+  met4 : ∀ x ∈ cs, x.met = 4
+
+/-- **The objects of the written BMS file are the rows' objects.**  For a chart whose tempo rows are, in ANY order, the
+stored form of a tempo-change list in C05's domain: `_write_notes` succeeds, and the by-the-book objects of its cells
+(channel, measure, beat `4·idx/den`, id — `written_objects`) are, cell by cell, the (channel, measure, beat, id) of the
+rows: the denominators `find_lcm` assigns depend on the row order, the objects do not. -/
+theorem writeCells_objects (cs : List BcSnap) (hwf : wfChanges cs = true) (hs : strictSnaps cs = true)
+    (h0 : firstAtZero cs = true) (hgc : gridCompatible (grid defaultMaxDiv) cs = true) (hm : metronomeOk cs = true)
+    (lay : Layout) (dflt : Bytes) (c : BMS.WChart) (hp : c.bpms.Perm (tmOf 0 cs)) (hok : BmsOk cs lay c) :
+    ∃ cells, writeCells defaultGrid lay dflt c = .ok cells ∧
+      cells.map cellObj = (bmsNoteRows cs lay dflt c).map rowObj ++ (bmsTempoRows cs lay c).map rowObj := by
+  have hsorted := sortedSnaps_of_strict hs
+  have hg : GridOK defaultGrid := gridOK_grid (by decide)
+  have hgc' : gridCompatible defaultGrid.toList cs = true := by simpa [defaultGrid] using hgc
+  have hsort : sortBcOff c.bpms = tmOf 0 cs := (tempo_rows_positions hg 0 cs hwf hs h0 hgc' hm c.bpms hp).1
+  have hne : cs ≠ [] := by intro e; subst e; simp [firstAtZero] at h0
+  have PM : ∀ t : Rat, 0 ≤ t → (posFn cs t).met = some 4 :=
+    fun t ht => posFn_met cs hwf hsorted hgc hm hok.met4 t ht hne
+  have hany : (c.bpms.any fun b => decide (b.met ≠ defMet)) = false := by
+    rw [List.any_eq_false]
+    intro b hb; simp [hok.met b hb]
+  have S := fun ts hts => snaps_pointwise cs hwf hsorted h0 hgc hm ts hts
+  have s1 := S (c.hits.map (·.offset)) (by
+    intro t ht; obtain ⟨h, hh, rfl⟩ := List.mem_map.mp ht; exact hok.times.1 h hh)
+  have s2 := S (c.holds.map (·.offset)) (by
+    intro t ht; obtain ⟨h, hh, rfl⟩ := List.mem_map.mp ht; exact (hok.times.2.1 h hh).1)
+  have s3 := S (c.holds.map (·.tail)) (by
+    intro t ht; obtain ⟨h, hh, rfl⟩ := List.mem_map.mp ht; exact (hok.times.2.1 h hh).2)
+  have s4 := S (c.bpms.map (·.offset)) (by
+    intro t ht; obtain ⟨b, hb, rfl⟩ := List.mem_map.mp ht; exact hok.times.2.2 b hb)
+  have m1 := mkRows_map lay c.hits (fun h => posFn cs h.offset) (·.col) (fun h => sampleId c.samples dflt h.sample) hok.cols.1
+  have m2 := mkRows_map lay c.holds (fun h => posFn cs h.offset) (·.col) (fun h => sampleId c.samples dflt h.sample) hok.cols.2
+  have m3 := mkRows_map lay c.holds (fun h => posFn cs h.tail) (·.col) (fun _ => c.lnEnd) hok.cols.2
+  refine ⟨(((bmsNoteRows cs lay dflt c ++ bmsTempoRows cs lay c).map slotOfRow).zip
+      (newDens Generated.BMS.lcmThreshold ((bmsNoteRows cs lay dflt c ++ bmsTempoRows cs lay c).map slotOfRow))).map
+      (fun p => cellOf p.1 p.2), ?_, ?_⟩
+  · unfold writeCells
+    simp only [hany, hsort, s1.1, s2.1, s3.1, s4.1, liftT, List.map_map, Function.comp_def, m1, m2, m3, bind, Except.bind,
+      Bool.false_eq_true, if_false]
+    rfl
+  · have hrows : ∀ r ∈ bmsNoteRows cs lay dflt c ++ bmsTempoRows cs lay c, r.snap.met = some 4 ∧ 0 ≤ r.snap.beat := by
+      intro r hr
+      simp only [bmsNoteRows, bmsTempoRows, List.mem_append, List.mem_map] at hr
+      rcases hr with ((⟨h, hh, rfl⟩ | ⟨h, hh, rfl⟩) | ⟨h, hh, rfl⟩) | ⟨p, hpm, rfl⟩
+      · exact ⟨PM _ (hok.times.1 h hh), s1.2 _ (List.mem_map_of_mem hh)⟩
+      · exact ⟨PM _ (hok.times.2.1 h hh).1, s2.2 _ (List.mem_map_of_mem hh)⟩
+      · exact ⟨PM _ (hok.times.2.1 h hh).2, s3.2 _ (List.mem_map_of_mem hh)⟩
+      · have : p.2 ∈ c.bpms.map (fun b => posFn cs b.offset) := by
+          have := List.mem_map_of_mem (f := (·.2)) hpm
+          rwa [zipIdxFrom_map_snd] at this
+        obtain ⟨b, hb, e⟩ := List.mem_map.mp this
+        simp only [← e]
+        exact ⟨PM _ (hok.times.2.2 b hb), s4.2 _ (List.mem_map_of_mem hb)⟩
+    have := cells_objects Generated.BMS.lcmThreshold (bmsNoteRows cs lay dflt c ++ bmsTempoRows cs lay c) hrows
+    simpa only [List.map_append] using this
+
+/-- non-vacuity of `BmsOk` and of the tempo hypothesis: two tempo rows stored out of order, two hits, one hold, layout BME -/
+def exBmsCs : List BcSnap := [⟨120, 4, ⟨0, 0, some 4⟩⟩, ⟨240, 4, ⟨1, 0, some 4⟩⟩]
+def exBmsChart : BMS.WChart :=
+  { title := [], artist := [], version := [], lnEnd := ['Z', 'Z'], samples := [], misc := [],
+    bpms := [⟨240, 4, 2000⟩, ⟨120, 4, 0⟩], hits := [⟨0, [], 500⟩, ⟨1, [], 2250⟩], holds := [⟨2, [], 1000, 1500⟩] }
+
+example : ∃ lay, bookLayout "BME" = some lay ∧ BmsOk exBmsCs lay exBmsChart ∧ exBmsChart.bpms.Perm (tmOf 0 exBmsCs) := by
+  refine ⟨_, rfl, ⟨by decide +kernel, by decide +kernel, by decide +kernel, by decide +kernel⟩, by decide +kernel⟩
+
+/-- **BMSMap.write, two row orders of one chart.**  `c'` is `c` with its tempo rows, hits and holds in other row
+orders.  Both `_write_notes` succeed; the objects of the two files on the note channels (hits, hold heads, LNOBJ tails:
+channel, measure, beat, key-sound id) are the same multiset; and the tempo objects, read back through the `#BPMxx` table
+that is numbered in row order, sort to the same tempo list `cs` in both files (C05 `written_tempo_list`).  The LINES may
+differ (`find_lcm` picks line denominators in row order); the denoted objects do not. -/
+theorem write_bms_perm (cs : List BcSnap) (hwf : wfChanges cs = true) (hs : strictSnaps cs = true)
+    (h0 : firstAtZero cs = true) (hgc : gridCompatible (grid defaultMaxDiv) cs = true) (hm : metronomeOk cs = true)
+    (lay : Layout) (dflt : Bytes) (c : BMS.WChart) (bpms' : List BcOff) (hits' : List HitOut) (holds' : List WHold)
+    (hp : c.bpms.Perm (tmOf 0 cs)) (hb : c.bpms.Perm bpms') (hh : c.hits.Perm hits') (hl : c.holds.Perm holds')
+    (hok : BmsOk cs lay c) (hdec : ∀ b ∈ c.bpms, roundDec 3 b.bpm = b.bpm) :
+    ∃ cells cells' N N' T T',
+      writeCells defaultGrid lay dflt c = .ok cells ∧
+      writeCells defaultGrid lay dflt { c with bpms := bpms', hits := hits', holds := holds' } = .ok cells' ∧
+      cells.map cellObj = N ++ T ∧ cells'.map cellObj = N' ++ T' ∧ N.Perm N' ∧
+      T.length = c.bpms.length ∧ T'.length = c.bpms.length ∧
+      (∃ sn, snaps defaultGrid (sortBcOff c.bpms) (c.bpms.map (·.offset)) = .ok sn ∧
+        sortBcSnap ((c.bpms.zip sn).map (fun p => (⟨roundDec 3 p.1.bpm, p.1.met, { p.2 with met := some p.1.met }⟩ : BcSnap))) = cs) ∧
+      (∃ sn', snaps defaultGrid (sortBcOff bpms') (bpms'.map (·.offset)) = .ok sn' ∧
+        sortBcSnap ((bpms'.zip sn').map (fun p => (⟨roundDec 3 p.1.bpm, p.1.met, { p.2 with met := some p.1.met }⟩ : BcSnap))) = cs) := by
+  have hok' : BmsOk cs lay { c with bpms := bpms', hits := hits', holds := holds' } :=
+    ⟨fun b hb' => hok.met b (hb.mem_iff.mpr hb'),
+     ⟨fun h hh' => hok.cols.1 h (hh.mem_iff.mpr hh'), fun h hh' => hok.cols.2 h (hl.mem_iff.mpr hh')⟩,
+     ⟨fun h hh' => hok.times.1 h (hh.mem_iff.mpr hh'), fun h hh' => hok.times.2.1 h (hl.mem_iff.mpr hh'),
+      fun b hb' => hok.times.2.2 b (hb.mem_iff.mpr hb')⟩,
+     hok.met4⟩
+  obtain ⟨cells, e, o⟩ := writeCells_objects cs hwf hs h0 hgc hm lay dflt c hp hok
+  obtain ⟨cells', e', o'⟩ := writeCells_objects cs hwf hs h0 hgc hm lay dflt
+    { c with bpms := bpms', hits := hits', holds := holds' } (hb.symm.trans hp) hok'
+  obtain ⟨_, sn, t1, _, t2⟩ := written_tempo_list cs hwf hs h0 hgc hm c.bpms hp hdec
+  obtain ⟨_, sn', t1', _, t2'⟩ := written_tempo_list cs hwf hs h0 hgc hm bpms' (hb.symm.trans hp)
+    (fun b hb' => hdec b (hb.mem_iff.mpr hb'))
+  refine ⟨cells, cells', _, _, _, _, e, e', o, o', ?_, ?_, ?_, ⟨sn, t1, t2⟩, ⟨sn', t1', t2'⟩⟩
+  · simp only [bmsNoteRows, List.map_append]
+    exact (((hh.map _).map _).append ((hl.map _).map _)).append ((hl.map _).map _)
+  · have := congrArg List.length (zipIdxFrom_map_snd (c.bpms.map (fun b => posFn cs b.offset)) 0)
+    simp only [List.length_map] at this
+    simp only [bmsTempoRows, List.length_map, this]
+  · have := congrArg List.length (zipIdxFrom_map_snd (bpms'.map (fun b => posFn cs b.offset)) 0)
+    simp only [List.length_map] at this
+    simp only [bmsTempoRows, List.length_map, this, hb.length_eq]
+
+end BMSWriter
 
 /-! ## the Quaver writer -/
 
